@@ -220,6 +220,30 @@ func runC01(toks []string) Result {
 		obs := fmt.Sprintf("enc=%s back=%s reenc=%s", hx(b), sobs, re)
 		oracle := "na"
 		tags := treeTags(t)
+		// the same value built step by step and serialized after (a sample of) the steps: serializing a value
+		// serializes what it holds now, whatever was serialized before
+		incDiffers := false
+		if t.noAbsent() {
+			func() {
+				defer func() {
+					if recover() != nil {
+						incDiffers = true
+					}
+				}()
+				steps, every := 0, 1
+				if sz := t.size(); sz > 300 {
+					every = sz / 7
+				}
+				root := t.buildIncremental(func(root *proto.Message) {
+					steps++
+					if steps%every == 0 {
+						safeRESP(root)
+					}
+				})
+				ib, ip := safeRESP(root)
+				incDiffers = ip || !bytes.Equal(ib, b)
+			}()
+		}
 		if t.lineSafe() {
 			var want []byte
 			t.refEnc(&want)
@@ -234,6 +258,8 @@ func runC01(toks []string) Result {
 				oracle = "fail:the value following the serialization was not left intact (" + sobs + ")"
 			case !bytes.Equal(reb, b):
 				oracle = "fail:re-serialization differs from input bytes"
+			case incDiffers:
+				oracle = "fail:the value built step by step (serialized after the steps) serializes differently in the end"
 			default:
 				oracle = "ok"
 			}
